@@ -2,7 +2,7 @@
 from .. import common as C, structs as S, clientgen as G
 from .c07 import tok, classify_status
 
-LEAN_MODULES = ["ZvtVerif.Properties.C09"]
+LEAN_MODULES = ["ZvtVerif.Properties.C09", "ZvtVerif.Properties.Traffic"]
 TRANSLATED = {"structs", "sequences", "errors"}      # translated tables this property consumes (a translator problem elsewhere does not break its tie)
 ASSUMPTIONS = ["simulated terminal with a fault table keyed by (connection, item index); time = tokio's paused clock",
                "oracle: per-connection byte log of the simulated terminal"]
